@@ -22,12 +22,16 @@ def sec_to_public_pair(
     byte_count = (generator.p().bit_length() + 7) >> 3 if generator else (len(sec) - 1)
     x = from_bytes_32(sec[1 : 1 + byte_count])
     sec0 = sec[:1]
+    if generator and x >= generator.p():
+        raise EncodingError("sec x coordinate is not below the field prime")
     if len(sec) == 1 + byte_count * 2:
         isok = sec0 == b"\4"
         if not strict:
             isok = isok or (sec0 in [b"\6", b"\7"])
         if isok:
             y = from_bytes_32(sec[1 + byte_count : 1 + 2 * byte_count])
+            if generator and y >= generator.p():
+                raise EncodingError("sec y coordinate is not below the field prime")
             if sec0 in (b"\6", b"\7") and (y & 1) != (sec0 == b"\7"):
                 raise EncodingError("hybrid sec prefix contradicts parity of y")
             return (x, y)
